@@ -9,6 +9,7 @@ identifies position; the constructor fill, the fill of filled reads and NaN get 
 """
 import numpy as np
 
+from . import common as C
 from .framework import Spec
 
 PADI = -1.0        # constructor fill_value        -> token I
@@ -18,7 +19,7 @@ FS = [1.0, 8.0, 1000.0, 44100.0, 195312.5]
 POW2 = {1.0, 8.0}  # k/fs*fs is exact: the constructor may be given size = cap/fs
 DELTAS = [-0.4, -0.3, 0.0, 0.2, 0.4]   # sub-sample offsets of the float stream (never a tie)
 
-MUTATORS = ('append', 'inval', 'invalt', 'resize')
+MUTATORS = ('append', 'inval', 'invalt', 'resize', 'skip')
 
 
 # ---------------------------------------------------------------------------
@@ -51,6 +52,8 @@ class Ref:
     def mutate(self, op):
         if op[0] == 'append':
             self.append(op[1])
+        elif op[0] == 'skip':               # a giant chunk, then capacity+1 position-coded samples (rebased numbering)
+            self.append(self.cap + 1)
         elif op[0] in ('inval', 'invalt'):
             self.inval(op[1])
         elif op[0] == 'resize':
@@ -83,7 +86,7 @@ def toks(l):
 # ---------------------------------------------------------------------------
 # Adapter to the real code
 # ---------------------------------------------------------------------------
-def tok(v, ch, frac=0.0):
+def tok(v, ch, frac=0.0, CH=CH):
     if v != v:
         return 'N'
     if v == PADI:
@@ -96,21 +99,37 @@ def tok(v, ch, frac=0.0):
     return f'?{v!r}'
 
 
-def tokens(arr, nch, frac=0.0):
+def tokens(arr, nch, frac=0.0, CH=CH):
     a = np.asarray(arr)
     if a.ndim != (2 if nch else 1) or (nch and a.shape[0] != nch):
         return f'SHAPE{a.shape}'
     rows = list(a) if nch else [a]
-    cols = [[tok(v, ch, frac) for v in row.tolist()] for ch, row in enumerate(rows)]
+    cols = [[tok(v, ch, frac, CH) for v in row.tolist()] for ch, row in enumerate(rows)]
     for ch, c in enumerate(cols[1:], 1):
         if c != cols[0]:
             return f'CHANNELS-DIFFER(0:{toks(cols[0])};{ch}:{toks(c)})'
     return toks(cols[0])
 
 
+DDTYPES = {'float32': np.float32, 'int16': np.int16, 'uint16': np.uint16, 'int32': np.int32, 'int64': np.int64}
+
+
 class Impl:
+    """Adapter to the real SignalBuffer.  Optional case keys (every one defaults to the plain spelling):
+    ctor   'kw' | 'pos' (positional constructor arguments) | 'nanfill' (fill_value left at its default)
+    bdtype None | 'float32'  (constructor dtype keyword)
+    fsrepr None | 'int' | 'np64' | 'np32'  (type of the fs argument, same value)
+    ddtype None | key of DDTYPES  (dtype of the appended arrays, same values)
+    layout None | 'strided' | 'rev' | 'fortran' | 'readonly'  (memory layout of the appended arrays)
+    args   None | 'np' | 'np32' | 'int' | 'kw'  (type / spelling of scalar arguments, same values)
+    scribble  the caller overwrites every array it passed to append_data right after the call
+    twin   'same' | 'cap': a second buffer (same parameters / capacity + 1) built first and fed the same array
+           objects in between
+    All sample numbers are rebased by `self.base` (the size of a giant first chunk, op 'skip')."""
+
     def __init__(self, case):
         from psiaudio.buffer import SignalBuffer
+        self.case = case
         self.fs = fs = case['fs']
         self.nch = case['nch']
         cap = case['cap']
@@ -119,84 +138,207 @@ class Impl:
         # (the same numbers -1 / -2): the buffer is a float buffer whatever the type of the fill value
         self.frac = 0.25 if case.get('numrepr') else 0.0
         ifill = int(PADI) if case.get('numrepr') else PADI
-        self.b = SignalBuffer(fs=fs, size=size, fill_value=ifill, n_channels=self.nch or None)
+        fsarg = fs
+        r = case.get('fsrepr')
+        if r == 'int' and fs == int(fs):
+            fsarg = int(fs)
+        elif r == 'np64':
+            fsarg = np.float64(fs)
+        elif r == 'np32':
+            fsarg = np.float32(fs)       # every fs in FS is exactly representable
+        bdtype = {'float32': np.float32}.get(case.get('bdtype'), np.double)
+        self.twin = None
+        if case.get('twin'):
+            # another object, differing in one parameter, built first and fed the same array objects in between
+            tsize = size if case['twin'] == 'same' else size + 1 / fs
+            self.twin = SignalBuffer(fs=fsarg, size=tsize, fill_value=ifill, n_channels=self.nch or None,
+                                     dtype=bdtype)
+            self.twin.append_data(np.full((self.nch, 3) if self.nch else 3, 333.0))
+        ctor = case.get('ctor', 'kw')
+        if ctor == 'pos':
+            self.b = SignalBuffer(fsarg, size, ifill, bdtype, self.nch or None)
+        elif ctor == 'nanfill':
+            kw = {'dtype': bdtype} if case.get('bdtype') else {}
+            self.b = SignalBuffer(fsarg, size, n_channels=self.nch or None, **kw)
+        else:
+            self.b = SignalBuffer(fs=fsarg, size=size, fill_value=ifill, n_channels=self.nch or None,
+                                  dtype=bdtype)
         self.next = 0
+        self.base = 0
+        self.CH = case.get('chmul', CH)     # channel c carries c*CH + payload
         # fill value of the filled reads: normally distinct from the constructor's, in `samefill` cases equal to it
         self.padf = PADI if case.get('samefill') else PADF
         if case.get('numrepr'):
             self.padf = int(self.padf)
+        self.args = case.get('args')
+
+    # ---- argument representations (the same values) -----------------------
+    def S(self, i):
+        """a sample number as the caller may hold it"""
+        i = int(i) + self.base
+        if self.args == 'np':
+            return np.int64(i)
+        if self.args == 'np32' and abs(i) < 2 ** 31:
+            return np.int32(i)
+        return i
+
+    def T(self, k, d=0.0, rel=False):
+        """the time of sample k (+ a sub-sample offset d); `rel`: relative to the newest sample (not rebased)"""
+        k = k if rel else k + self.base
+        t = (k + d) / self.fs
+        if self.args == 'np':
+            return np.float64(t)
+        if self.args == 'np32' and d == 0.0 and self.fs in POW2 and abs(k) < 2 ** 20:
+            return np.float32(t)
+        if self.args == 'int' and t == int(t):
+            return int(t)
+        return t
 
     def bounds(self):
-        return f'{int(self.b.get_samples_lb())} {int(self.b.get_samples_ub())}'
+        return f'{int(self.b.get_samples_lb()) - self.base} {int(self.b.get_samples_ub()) - self.base}'
 
     def rd(self, f, *a, **k):
         try:
-            return tokens(f(*a, **k), self.nch, self.frac)
+            return tokens(f(*a, **k), self.nch, self.frac, self.CH)
         except Exception as e:
             return type(e).__name__
 
+    def chunk(self, n):
+        """position-coded data for the next n samples, in the case's dtype and memory layout"""
+        dt = DDTYPES.get(self.case.get('ddtype'), np.double)
+        pos = np.arange(self.next, self.next + n, dtype=np.double) + self.frac
+        data = np.vstack([pos + ch * self.CH for ch in range(self.nch)]) if self.nch else pos
+        data = data.astype(dt)
+        lay = self.case.get('layout')
+        if lay == 'strided':                        # every second element of a larger array
+            big = np.full(data.shape[:-1] + (2 * n + 1,), 777, dtype=dt)
+            big[..., 1::2] = data
+            data = big[..., 1::2]
+        elif lay == 'rev':                          # negative stride
+            data = np.ascontiguousarray(data[..., ::-1])[..., ::-1]
+        elif lay == 'fortran' and self.nch:
+            data = np.asfortranarray(data)
+        elif lay == 'readonly':
+            data.flags.writeable = False
+        self.next += n
+        return data
+
+    def append(self, data):
+        before = data.copy()
+        if self.twin is not None:
+            self.twin.append_data(data)
+        if self.args == 'kw':
+            self.b.append_data(data=data)
+        else:
+            self.b.append_data(data)
+        if data.dtype != before.dtype or data.shape != before.shape or not np.array_equal(data, before):
+            return 'ARGUMENT-MODIFIED'
+        if self.twin is not None:
+            self.twin.append_data(data)
+            if self.twin.get_samples_ub() % 3 == 0:
+                self.twin.invalidate_samples(self.twin.get_samples_ub() - 1)
+            v = self.twin.get_range_samples()
+            v[...] = 555                         # the caller scribbles on what the OTHER buffer returned
+        if self.case.get('scribble') and data.flags.writeable:
+            data[...] = 666                      # the caller re-uses its array
+        return 'ok ' + self.bounds()
+
     def do(self, op):
         b, fs, name = self.b, self.fs, op[0]
+        S, T, kw = self.S, self.T, self.args == 'kw'
         if name == 'append':
-            n = op[1]
-            pos = np.arange(self.next, self.next + n, dtype=np.double) + self.frac
-            data = np.vstack([pos + ch * CH for ch in range(self.nch)]) if self.nch else pos
-            b.append_data(data)
-            self.next += n
-            return 'ok ' + self.bounds()
+            return self.append(self.chunk(op[1]))
+        if name == 'skip':
+            shape = (self.nch, op[1]) if self.nch else (op[1],)
+            b.append_data(np.broadcast_to(np.double(0), shape))      # zero-stride: no memory behind it
+            self.base += op[1]
+            return self.append(self.chunk(self.case['cap'] + 1))
         if name == 'inval':
-            b.invalidate_samples(op[1])
+            b.invalidate_samples(i=S(op[1])) if kw else b.invalidate_samples(S(op[1]))
             return 'ok ' + self.bounds()
         if name == 'invalt':
-            b.invalidate((op[1] + op[2]) / fs)
+            b.invalidate(t=T(op[1], op[2])) if kw else b.invalidate(T(op[1], op[2]))
             return 'ok ' + self.bounds()
         if name == 'resize':
-            b.resize(op[1] / fs)
+            b.resize(size=T(op[1], rel=True)) if kw else b.resize(T(op[1], rel=True))
             return 'ok ' + self.bounds()
         if name == 'bounds':
             return 'ok ' + self.bounds()
         if name == 'boundst':
-            return f'ok {round(b.get_time_lb() * fs)} {round(b.get_time_ub() * fs)}'
+            return f'ok {round(b.get_time_lb() * fs) - self.base} {round(b.get_time_ub() * fs) - self.base}'
         if name == 'read':
-            return 'ok ' + tokens(b.get_range_samples(op[1], op[2]), self.nch, self.frac)
+            r = b.get_range_samples(lb=S(op[1]), ub=S(op[2])) if kw else b.get_range_samples(S(op[1]), S(op[2]))
+            return 'ok ' + tokens(r, self.nch, self.frac, self.CH)
+        if name == 'readlb':                 # upper bound left at its default
+            r = b.get_range_samples(lb=S(op[1])) if kw else b.get_range_samples(S(op[1]))
+            return 'ok ' + tokens(r, self.nch, self.frac, self.CH)
+        if name == 'readub':                 # lower bound left at its default
+            r = b.get_range_samples(ub=S(op[1])) if kw else b.get_range_samples(None, S(op[1]))
+            return 'ok ' + tokens(r, self.nch, self.frac, self.CH)
         if name == 'readt':
-            return 'ok ' + tokens(b.get_range((op[1] + op[3]) / fs, (op[2] + op[4]) / fs), self.nch, self.frac)
+            lb, ub = T(op[1], op[3]), T(op[2], op[4])
+            return 'ok ' + tokens(b.get_range(lb=lb, ub=ub) if kw else b.get_range(lb, ub), self.nch, self.frac, self.CH)
+        if name == 'readtlb':
+            return 'ok ' + tokens(b.get_range(lb=T(op[1])) if kw else b.get_range(T(op[1])), self.nch, self.frac, self.CH)
+        if name == 'readtub':
+            return 'ok ' + tokens(b.get_range(ub=T(op[1])) if kw else b.get_range(None, T(op[1])), self.nch, self.frac, self.CH)
         if name == 'window':
-            return 'ok ' + tokens(b.get_range_samples(), self.nch, self.frac)
+            return 'ok ' + tokens(b.get_range_samples(), self.nch, self.frac, self.CH)
         if name == 'windowt':
-            return 'ok ' + tokens(b.get_range(), self.nch, self.frac)
+            return 'ok ' + tokens(b.get_range(), self.nch, self.frac, self.CH)
         if name == 'filled':
             dl, du = (op[3], op[4]) if len(op) > 3 else (0.0, 0.0)
-            return 'ok ' + tokens(b.get_range_filled((op[1] + dl) / fs, (op[2] + du) / fs, self.padf), self.nch, self.frac)
+            lb, ub = T(op[1], dl), T(op[2], du)
+            r = (b.get_range_filled(lb=lb, ub=ub, fill_value=self.padf) if kw
+                 else b.get_range_filled(lb, ub, self.padf))
+            out = 'ok ' + tokens(r, self.nch, self.frac, self.CH)
+            if self.case.get('scribble'):
+                r[...] = 444                 # a filled read is a fresh array today; the caller may do what it likes
+            return out
         if name == 'latest':
-            return 'ok ' + tokens(b.get_latest(op[1] / fs, op[2] / fs), self.nch, self.frac)
+            lb, ub = T(op[1], rel=True), T(op[2], rel=True)
+            return 'ok ' + tokens(b.get_latest(lb=lb, ub=ub) if kw else b.get_latest(lb, ub), self.nch, self.frac, self.CH)
+        if name == 'latest1':                # ub left at its default (0 = the newest sample)
+            lb = T(op[1], rel=True)
+            return 'ok ' + tokens(b.get_latest(lb=lb) if kw else b.get_latest(lb), self.nch, self.frac, self.CH)
         if name == 'latestf':
-            return 'ok ' + tokens(b.get_latest(op[1] / fs, op[2] / fs, fill_value=self.padf), self.nch, self.frac)
+            lb, ub = T(op[1], rel=True), T(op[2], rel=True)
+            r = (b.get_latest(lb=lb, ub=ub, fill_value=self.padf) if kw
+                 else b.get_latest(lb, ub, self.padf))
+            return 'ok ' + tokens(r, self.nch, self.frac, self.CH)
         if name == 'probe':
-            lb, ub = int(b.get_samples_lb()), int(b.get_samples_ub())
+            lb, ub = int(b.get_samples_lb()) - self.base, int(b.get_samples_ub()) - self.base
             parts = [f'P {lb} {ub}',
                      self.rd(b.get_range_samples),
-                     self.rd(b.get_range_samples, lb - 1, ub),
-                     self.rd(b.get_range_samples, lb, ub + 1),
-                     self.rd(b.get_range_samples, lb + 1, ub - 1),
-                     self.rd(b.get_range_filled, (lb - 2) / fs, (ub + 1) / fs, self.padf),
-                     self.rd(b.get_range_filled, (lb - 3) / fs, (lb - 1) / fs, self.padf),
-                     self.rd(b.get_range_filled, (ub + 1) / fs, (ub + 3) / fs, self.padf),
-                     self.rd(b.get_latest, -2 / fs, 0, fill_value=self.padf)]
+                     self.rd(b.get_range_samples, S(lb - 1), S(ub)),
+                     self.rd(b.get_range_samples, S(lb), S(ub + 1)),
+                     self.rd(b.get_range_samples, S(lb + 1), S(ub - 1)),
+                     self.rd(b.get_range_filled, T(lb - 2), T(ub + 1), self.padf),
+                     self.rd(b.get_range_filled, T(lb - 3), T(lb - 1), self.padf),
+                     self.rd(b.get_range_filled, T(ub + 1), T(ub + 3), self.padf),
+                     self.rd(b.get_latest, T(-2, rel=True), 0, fill_value=self.padf)]
             return ' | '.join(parts)
         raise KeyError(name)
 
 
-def model_line(op, samefill=False):
+def model_line(op, samefill=False, ref=None):
     name = op[0]
     if samefill and name in ('filled', 'latestf', 'probe'):
         return ' '.join([name + 'i'] + [str(v) for v in op[1:3]])
     if name in ('append', 'inval', 'resize', 'read', 'latest', 'latestf'):
         return ' '.join([name] + [str(v) for v in op[1:]])
+    if name == 'skip':
+        return f'append {ref.cap + 1}'
     if name == 'invalt':
         return f'inval {op[1]}'
     if name == 'readt':
         return f'read {op[1]} {op[2]}'
+    if name in ('readlb', 'readtlb'):        # the defaulted bound is the window's
+        return f'read {op[1]} {ref.hi}'
+    if name in ('readub', 'readtub'):
+        return f'read {ref.lo} {op[1]}'
+    if name == 'latest1':
+        return f'latest {op[1]} 0'
     if name == 'filled':
         return f'filled {op[1]} {op[2]}'
     if name == 'boundst':
@@ -219,6 +361,8 @@ class C14(Spec):
         'compute, the correspondence run compares on every case',
         'the seconds API (round(t*fs), int(ceil(fs*size))) is outside the Lean model: the harness feeds times '
         'whose sample number is unambiguous (>= 0.1 sample from a rounding tie) and checks the sample-level result',
+        'histories whose first chunk is giant (2**31 .. 2**44 samples) reach the model rebased by that chunk: the '
+        'model sees `append capacity+1`, the adapter subtracts the offset from every sample number it reports',
         'channels: the model is polymorphic in the cell type; the harness checks that every channel of a '
         '2-/3-channel buffer shows the same positions as channel 0',
     ]
@@ -230,7 +374,13 @@ class C14(Spec):
             'overlapping / wholly before / wholly after the window, get_latest); (b) seeded random histories of up to '
             '30 ops, capacities 1..12, 1-D / 2 / 3 channels, five sampling rates, seconds API with sub-sample '
             'offsets; (c) boundary sweeps: invalidate / read / filled read at every offset -2..+2 around both '
-            'bounds of a random reachable state. Non-trivial = at least two state-changing ops and one read.')
+            'bounds of a random reachable state; (d) the same histories in other spellings of the same values '
+            '(constructor positional / default fill / dtype float32 / n_channels=1; fs as int, float64, float32; '
+            'appended arrays float32, int16/32/64, uint16, strided, reversed, Fortran-ordered, read-only; scalar '
+            'arguments as NumPy scalars, Python ints, keywords; one bound of a read left at its default; a call '
+            'repeated), the caller overwriting every array it passed in, a second buffer fed the same arrays; '
+            '(e) sample numbers beyond 2**31 (a giant zero-stride first chunk) and one buffer of 2**16 (thorough: '
+            '2**20) samples. Non-trivial = at least two state-changing ops and one read.')
     exhaustive_note = {
         'quick': 'all histories of depth <= 4 from capacity 1, 2 and of depth <= 3 from capacity 3 over the '
                  'state-dependent alphabet in `rule` (a), each ending in a probe',
@@ -239,6 +389,39 @@ class C14(Spec):
     }
 
     # ---- generation ---------------------------------------------------
+    @staticmethod
+    def variants(rng, nch, fs, p=0.5):
+        """Other spellings of the same history (see Impl): each key is drawn independently with probability p."""
+        v = {}
+        def hit():
+            return rng.random() < p
+        if hit():
+            v['ctor'] = rng.choice(['pos', 'nanfill'])
+        if hit():
+            v['bdtype'] = 'float32'
+        if hit():
+            v['fsrepr'] = rng.choice(['int', 'np64', 'np32'])
+        if hit():
+            v['layout'] = rng.choice(['strided', 'rev', 'fortran', 'readonly'])
+        if hit():
+            v['args'] = rng.choice(['np', 'np32', 'int', 'kw'])
+        if hit():
+            v['scribble'] = True
+        if hit():
+            v['twin'] = rng.choice(['same', 'cap'])
+        if hit():
+            v['ddtype'] = rng.choice(['float32', 'int32', 'int64'] + ([] if nch else ['int16', 'uint16']))
+        return v
+
+    @staticmethod
+    def sane(c):
+        """Drop variant combinations that would change the values instead of their representation."""
+        if c.get('ddtype', 'float32') != 'float32':
+            c['numrepr'] = False                   # integer arrays cannot carry k + 0.25
+        if c.get('ctor') == 'nanfill':
+            c['samefill'] = False                  # the fill of the filled reads stays a number
+        return c
+
     @staticmethod
     def alphabet(ref):
         lo, hi, cap = ref.lo, ref.hi, ref.cap
@@ -252,8 +435,11 @@ class C14(Spec):
 
         def rec(ops, d):
             count[0] += 1
-            yield {'kind': 'exh', 'cap': cap, 'nch': 2 if count[0] % 4 == 0 else 0, 'fs': 1.0, 'exact': True,
-                   'ops': ops + [['probe']], 'samefill': count[0] % 3 == 0, 'numrepr': count[0] % 5 == 0}
+            c = {'kind': 'exh', 'cap': cap, 'nch': (0, 0, 0, 2, 0, 1, 0, 2)[count[0] % 8], 'fs': 1.0, 'exact': True,
+                 'ops': ops + [['probe']], 'samefill': count[0] % 3 == 0, 'numrepr': count[0] % 5 == 0}
+            if count[0] % 2:                       # every second history in another spelling
+                c.update(self.variants(C.Rng(count[0]), c['nch'], 1.0, p=0.35))
+            yield self.sane(c)
             if d == 0:
                 return
             ref = Ref(cap)
@@ -276,6 +462,10 @@ class C14(Spec):
         if a > b:                    # reversed: keep it inside the window (harmless, result empty)
             a, b = min(max(a, ref.lo), ref.hi), min(max(b, ref.lo), ref.hi)
         r = rng.random()
+        if r < 0.06:                 # one bound left at its default
+            return [rng.choice(['readtlb', 'readtub'] if floats else ['readlb', 'readub']), a]
+        if r < 0.09:
+            return ['latest1', a - ref.hi]
         if r < 0.30:
             return ['readt', a, b, rng.choice(DELTAS), rng.choice(DELTAS)] if floats else ['read', a, b]
         if r < 0.55:
@@ -294,7 +484,9 @@ class C14(Spec):
         r = rng.random()
         cap = ref.cap
         if r < 0.55:
-            n = rng.choice([1, 1, 2, cap - 1, cap, cap + 1, cap + 4, rng.randint(1, cap + 4)])
+            free = cap - (ref.hi - ref.lo)          # room left before old samples are pushed out
+            n = rng.choice([1, 1, 2, cap - 1, cap, cap + 1, cap + 4, rng.randint(1, cap + 4),
+                            free - 1, free, free + 1])
             return ['append', max(1, n)]
         if r < 0.85:
             i = max(0, self._near(rng, ref))
@@ -317,10 +509,72 @@ class C14(Spec):
             else:
                 op = self._read_op(rng, ref, floats)
             ops.append(op)
+            if rng.random() < 0.08:                 # the same call again
+                ops.append(list(op))
+                if op[0] in MUTATORS:
+                    ref.mutate(op)
         ops.append(['probe'])
-        return {'kind': 'float' if floats and kind == 'rand' else kind, 'cap': cap,
-                'nch': rng.choice([0, 0, 2, 3]), 'fs': fs, 'exact': rng.random() < 0.5, 'ops': ops,
-                'samefill': rng.random() < 0.3, 'numrepr': rng.random() < 0.3}
+        nch = rng.choice([0, 0, 2, 3, 1])
+        c = {'kind': 'float' if floats and kind == 'rand' else kind, 'cap': cap,
+             'nch': nch, 'fs': fs, 'exact': rng.random() < 0.5, 'ops': ops,
+             'samefill': rng.random() < 0.3, 'numrepr': rng.random() < 0.3}
+        if rng.random() < 0.6:
+            c.update(self.variants(rng, nch, fs))
+        return self.sane(c)
+
+    def huge_case(self, rng):
+        """Sample numbers far beyond 2**31: a giant first chunk (a zero-stride array, no memory behind it), then an
+        ordinary history; the adapter rebases all sample numbers by the size of the giant chunk."""
+        c = self.random_case(rng, 12, kind='huge')
+        n = rng.choice([2 ** 31 - 1, 2 ** 31, 2 ** 32 + 1, 2 ** 40, rng.randint(2 ** 31, 2 ** 44)])
+        ops = [['skip', n]]
+        ref = Ref(c['cap'])
+        ref.mutate(ops[0])
+        floats = c['fs'] >= 1000.0 or rng.random() < 0.5
+        for _ in range(rng.randint(2, 12)):
+            if rng.random() < 0.5:
+                op = self._mut_op(rng, ref, floats)
+                ref.mutate(op)
+            else:
+                op = self._read_op(rng, ref, floats)
+            ops.append(op)
+        c['ops'] = ops + [['probe']]
+        if c.get('args') == 'np32' or c.get('fsrepr') == 'np32':
+            c.pop('args', None), c.pop('fsrepr', None)        # 32-bit scalars cannot hold these numbers
+        return c
+
+    def scale_case(self, rng, tier):
+        """One buffer far larger than the others (2**16 / 2**20 samples), fed chunks from 1 sample to beyond
+        its capacity; reads are short ranges at the bounds (plus one whole window in the quick tier)."""
+        cap = 2 ** 16 if tier == 'quick' else 2 ** 20
+        ops = [['append', cap - 1], ['read', 0, 3], ['append', 1], ['read', cap - 3, cap], ['append', 1],
+               ['read', 1, 4], ['read', 0, 3], ['filled', -1, 3], ['append', rng.randint(2, 9999)], ['bounds']]
+        ref = Ref(cap)
+        for o in ops:
+            ref.mutate(o)
+        for _ in range(6):
+            r = rng.random()
+            if r < 0.4:
+                op = ['append', rng.choice([1, cap // 2 + rng.randint(0, 9), cap, cap + 1, cap + rng.randint(2, 999)])]
+            elif r < 0.7:
+                op = ['inval', rng.choice([ref.lo, ref.lo + 1, (ref.lo + ref.hi) // 2, ref.hi - 1, max(0, ref.lo - 1)])]
+            else:
+                op = ['resize', rng.choice([cap // 2, cap - 1, cap + 1, 2 * cap, 3])]
+            ref.mutate(op)
+            lo, hi = ref.lo, ref.hi
+            ops += [op, ['read', lo, min(hi, lo + 3)], ['read', max(lo, hi - 3), hi], ['read', lo - 1, hi],
+                    ['read', lo, hi + 1], ['filled', lo - 2, min(hi, lo + 2)], ['filled', max(lo, hi - 2), hi + 2],
+                    ['latestf', -3, 0], ['bounds']]
+        if tier == 'quick':
+            ops.append(['window'])
+        c = {'kind': 'scale', 'cap': cap, 'nch': rng.choice([0, 2]), 'fs': rng.choice([1.0, 8.0, 195312.5]),
+             'exact': True, 'ops': ops, 'samefill': False, 'numrepr': False, 'chmul': 2 ** 26}
+        c.update(self.variants(rng, c['nch'], c['fs'], p=0.3))
+        if c.get('args') == 'np32' or c.get('fsrepr') == 'np32' or c.get('ddtype') in ('int16', 'uint16'):
+            c.pop('args', None), c.pop('fsrepr', None), c.pop('ddtype', None)
+        if c.get('bdtype') == 'float32' or c.get('ddtype') == 'float32':
+            c['nch'] = 0               # float32 holds integers up to 2**24 only
+        return self.sane(c)
 
     def boundary_cases(self, rng):
         """From one random reachable state: sweeps at every offset -2..+2 around both bounds."""
@@ -378,10 +632,18 @@ class C14(Spec):
             yield from self.boundary_cases(rng)
         for _ in range(nrand // 20):
             yield self.malformed(rng)
+        for _ in range(nrand // 50):
+            yield self.huge_case(rng)
+        yield self.scale_case(rng, tier)
 
     # ---- the two sides --------------------------------------------------
     def model_lines(self, c):
-        return [f"new {c['cap']}"] + [model_line(o, c.get('samefill', False)) for o in c['ops']]
+        ref = Ref(c['cap'])
+        out = [f"new {c['cap']}"]
+        for o in c['ops']:
+            out.append(model_line(o, c.get('samefill', False), ref))
+            ref.mutate(o)
+        return out
 
     def impl_lines(self, c):
         im = Impl(c)
@@ -411,6 +673,8 @@ class C14(Spec):
                     continue
                 ref.mutate(op)
                 want = f'ok {ref.lo} {ref.hi}'
+                if got == 'ARGUMENT-MODIFIED':
+                    return f'{where}: append_data modified the array the caller passed in'
                 if got != want:
                     return (f'{where}: bounds are {got!r}; the logical stream has {ref.hi} samples and the '
                             f'most recent min(capacity, available) start at {ref.lo}')
@@ -431,8 +695,15 @@ class C14(Spec):
                         return f'{where}: {lab} gave {g!r}, the logical stream requires {w!r}'
                 continue
             else:
-                a, b = op[1], op[2]
-                if name in ('latest', 'latestf'):
+                if name in ('readlb', 'readtlb'):
+                    a, b = op[1], ref.hi
+                elif name in ('readub', 'readtub'):
+                    a, b = ref.lo, op[1]
+                elif name == 'latest1':
+                    a, b = op[1], 0
+                else:
+                    a, b = op[1], op[2]
+                if name in ('latest', 'latestf', 'latest1'):
                     a, b = a + ref.hi, b + ref.hi
                 w = ref.filled(a, b) if name in ('filled', 'latestf') else ref.read(a, b)
                 if w is None:
@@ -470,6 +741,11 @@ class C14(Spec):
             n = dict(c)
             n['ops'] = ops[:k] + ops[k + 1:]
             yield n
+        for key in ('ctor', 'bdtype', 'fsrepr', 'layout', 'args', 'scribble', 'twin', 'ddtype', 'numrepr', 'samefill'):
+            if c.get(key):
+                n = dict(c)
+                del n[key]
+                yield n
         if c['nch']:
             yield dict(c, nch=0)
         if c['fs'] != 1.0:
@@ -489,8 +765,10 @@ class C14(Spec):
                 yield n
 
     def describe(self, c):
-        return (f"capacity {c['cap']} samples, channels {c['nch'] or 1}, fs {c['fs']}: "
-                + '; '.join(' '.join(str(v) for v in o) for o in c['ops']))
+        var = {k: c[k] for k in ('ctor', 'bdtype', 'fsrepr', 'ddtype', 'layout', 'args', 'scribble', 'twin',
+                                 'numrepr', 'samefill') if c.get(k)}
+        return (f"capacity {c['cap']} samples, channels {c['nch'] or 1}, fs {c['fs']}{' ' + str(var) if var else ''}: "
+                + '; '.join(' '.join(str(v) for v in o) for o in c['ops'][:40]))
 
 
 SPEC = C14()
